@@ -1074,6 +1074,21 @@ fn gen_case(r: &mut Prng, prop: &str, n: u64, out: &mut Out) -> (String, String,
             run.exec(&format!("r:lookup:{}:{}:1:{}::", u, gi, hex(format!("z{}", k).as_bytes())));
         }
     }
+    // C19 "evicted tail" histories: with remove_pseudo_root the newest pseudo directory is evicted
+    // before the save, so the saved `next_inode` is larger than the largest saved inode + 1
+    if prop == "C19" && rm && g.r.chance(2, 3) {
+        for (k, path) in ["/sa", "/sb/x", "/sc"].iter().enumerate() {
+            g.next_bk += 1;
+            let (bk, u, gi) = (g.next_bk, g.id(), g.id());
+            run.exec(&format!("m:{}:{}:-:1/{}/{}/100000:0", path, bk, u, gi));
+            if k == 2 {
+                run.exec("u:/sc");
+                if g.r.chance(1, 2) {
+                    run.exec("u:/sb/x");
+                }
+            }
+        }
+    }
     for _ in 0..len {
         if run.panicked {
             break;
@@ -1123,6 +1138,17 @@ fn gen_case(r: &mut Prng, prop: &str, n: u64, out: &mut Out) -> (String, String,
             let st = if g.r.chance(1, 3) { g.mount_step(&run.w, prop, None) } else { g.req_step(&run.w, prop) };
             run.exec(&st);
         }
+        // a fresh pseudo directory, then the numbers of the top-level pseudo entries as a client sees them
+        g.next_bk += 1;
+        let (bk, u, gi) = (g.next_bk, g.id(), g.id());
+        run.exec(&format!("m:/tail{}/y:{}:-:1/{}/{}/100000:0", n % 7, bk, u, gi));
+        let mut tops: Vec<String> = run.w.live.values().filter_map(|l| l.path.split('/').find(|c| !c.is_empty() && *c != "." && *c != "..").map(|c| c.to_string())).collect();
+        tops.sort();
+        tops.dedup();
+        for t in tops.iter().take(8) {
+            run.exec(&format!("r:lookup:0:0:1:{}::", hex(t.as_bytes())));
+        }
+        run.exec("r:readdir:0:0:1:4096/0::");
     }
     run.finish()
 }
